@@ -6,6 +6,7 @@ mod ast;
 mod c03;
 mod c05;
 mod c06;
+mod c07;
 mod c08;
 mod common;
 mod corpus;
@@ -71,6 +72,7 @@ fn main() {
         "C03" => c03::run(&ctx),
         "C05" => c05::run(&ctx),
         "C06" => c06::run(&ctx),
+        "C07" => c07::run(&ctx),
         "C08" => c08::run(&ctx),
         _ => {
             eprintln!("unknown property id {}", id);
